@@ -29,6 +29,7 @@ class KFold:
         self.has_return = False
         self.loop = None
         self.via = "loop"
+        self.band = None
         self.__dict__.update(kw)
 
     def text(self):
@@ -196,6 +197,7 @@ class Kernel:
             k.term = self.canon(fo.term if fo.kind != "LAST" else fo.value, loop.id)
         if fo.kind == "EXT":
             k.sense, k.strict = fo.sense, fo.strict
+            k.band = self.canon(fo.cond, loop.id) if getattr(fo, "band", False) else None
             fe = self.first_elem_init(init, loop) if init is not None else None
             if getattr(fo, "none_seeded", False):
                 k.init = ("first",)
